@@ -109,6 +109,7 @@ func run(c *core.Ctx) {
 		return
 	}
 	sim.Mon.HeldCheck = true // held block = block the held parts encode (shared with C12S)
+	sim.Mon.LockRecordCheck = true
 	sim.Run()
 	m := sim.Mon
 	for k, v := range m.Counters {
